@@ -1,6 +1,8 @@
 mod util;
 mod fam_c12;
 mod fam_c13;
+mod lib_e2e;
+mod fam_e2e;
 
 fn main() {
     let args: Vec<String> = std::env::args().collect();
@@ -14,6 +16,7 @@ fn main() {
     match args[1].as_str() {
         "c12" => fam_c12::run(seed, thorough),
         "c13" => fam_c13::run(seed, thorough),
+        "e2e" => fam_e2e::run(seed, thorough),
         other => {
             eprintln!("unknown family {}", other);
             std::process::exit(2);
